@@ -17,7 +17,8 @@ from .core import AnalysisError, norm_text
 
 VIEW_METHODS = {'reshape', 'transpose', 'squeeze', 'ravel', 'view', 'swapaxes'}
 VIEW_ATTRS = {'T', 'real', 'imag'}
-VIEW_FUNCS = {'transpose', 'reshape', 'squeeze', 'ravel', 'asarray', 'swapaxes', 'moveaxis', 'atleast_2d', 'real', 'imag'}
+VIEW_FUNCS = {'transpose', 'reshape', 'squeeze', 'ravel', 'asarray', 'swapaxes', 'moveaxis', 'atleast_1d', 'atleast_2d', 'real', 'imag', 'ascontiguousarray', 'asfortranarray',
+              'asanyarray', 'require', 'rollaxis', 'flip', 'fliplr', 'flipud', 'rot90', 'split', 'array_split', 'hsplit', 'vsplit', 'trim_zeros'}
 # library keyword -> index of the positional argument it lets the routine destroy
 DESTRUCTIVE_KW = {'overwrite_a': 0, 'overwrite_b': 1, 'overwrite_x': 0}
 LIST_MUTATORS = {'append', 'extend', 'reverse', 'insert', 'pop', 'remove', 'sort', 'clear'}
@@ -554,7 +555,7 @@ class FnAnalysis:
             if name in ('list', 'tuple') and args:
                 return Val({'F'}, args[0].contains | {a for a in args[0].alias if a.startswith('P:')}, args[0].kind if args[0].kind == 'ttlist' else 'list')
             if name in ('len', 'range', 'int', 'float', 'str', 'bool', 'abs', 'min', 'max', 'sum', 'isinstance', 'print', 'enumerate', 'zip',
-                        'sorted', 'reversed', 'all', 'any', 'complex', 'round', 'type', 'super', 'set', 'dict', 'divmod', 'map', 'filter',
+                        'sorted', 'reversed', 'all', 'any', 'complex', 'round', 'type', 'super', 'set', 'dict', 'divmod', 'map', 'filter', 'slice', 'iter', 'next', 'id', 'repr', 'hash', 'callable', 'getattr', 'hasattr',
                         'expm_multiply', 'legendre', 'BSpline', 'ValueError', 'TypeError', 'IndexError', 'NotImplementedError', 'Exception'):
                 if name in ('enumerate', 'zip', 'sorted', 'reversed') and args:
                     c = set()
@@ -563,6 +564,10 @@ class FnAnalysis:
                     return Val({'F'}, c, 'list')
                 return FRESH
             if name in self.mod.imports:
+                return FRESH
+            if name in self.env and not any(a.kind in ('tt', 'ttlist') for a in list(args) + list(kws.values())):
+                # a callable VALUE held in a local variable (basis-function object taken from a list, scipy poly1d, ...) applied to non-TT data:
+                # same treatment as the subscripted form basis_list[i][k](x): an external callable that returns a fresh value
                 return FRESH
             self.an.unresolved[(self.fn.qual, norm_text(e, 80))] = e.lineno
             return FRESH
